@@ -3,7 +3,7 @@
 From Coq Require Import ExtrOcamlBasic.
 From Coq Require Import List ZArith String.
 From Coq Require Import NArith.
-From IprV Require Import GenTypes Visitor Bits.
+From IprV Require Import GenTypes Visitor Bits Arena.
 From IprV.gen Require Import GenCategory GenIface GenVisitor GenAccept GenWords GenLexAcc.
 Import ListNotations.
 
@@ -33,6 +33,16 @@ Definition c10_project (q : bool) (w : string) : option N := project (c10_table 
 Definition c10_accessors : list (string * lex_acc) := gen_lex_accessors.
 Definition c10_known_words : list string := gen_known_words.
 
+(* C03: the string pool over the regenerated reserved-word table, with a
+   deliberately weak hash (collisions are frequent; the theorems hold for any hash) *)
+Definition c03_known : list word := map bytes_of_string gen_known_words.
+Definition c03_hash (w : word) : N :=
+  ((N.of_nat (List.length w) + 7 * hd 0%N w + 13 * last w 0%N) mod 251)%N.
+Definition c03_intern (p : pool) (w : word) : pool * strnode * intern_tag := intern c03_known c03_hash p w.
+Definition c03_chars (p : pool) (n : strnode) : option word := chars_of c03_known p n.
+Definition c03_node_block (p : pool) (i : nat) : option block := option_map d_block (nth_error (p_nodes p) i).
+
 Extraction "extracted/genmodel.ml" c06_rows
+  c03_known c03_intern c03_chars c03_node_block pool_init allocate arena_init a_npools a_chain
   c10_table c10_union c10_decomp c10_decomp_mask c10_project c10_accessors c10_known_words
   Bits.implies N.lor N.land N.lxor.
